@@ -415,6 +415,16 @@ func C08(tier string) int {
 		}
 		jobs = append(jobs, job{cs, b})
 	}
+	// every pair of request kinds (a kind also with itself), two threads, unbounded
+	for _, cs := range PairCorpus() {
+		jobs = append(jobs, job{cs, -1})
+	}
+	// thorough: every triple of state-changing request kinds, preemption bound 2
+	if res.Thorough() {
+		for _, cs := range TripleCorpus() {
+			jobs = append(jobs, job{cs, 2})
+		}
+	}
 	budget := 150 * time.Second
 	if res.Thorough() {
 		budget = 25 * time.Minute
@@ -491,7 +501,7 @@ func C08(tier string) int {
 			res.Violate("race|free-running-test-failed", "the free-running request test fails: "+tail(txt, 1500), M{"check": "C08", "part": "race", "log": rf})
 		}
 	}
-	res.Rule = "per scenario: 2-3 real request goroutines on one Actor under a cooperative scheduler; every Database/Transport/callback call is a scheduling point, application locks are blocking resources; 2-thread scenarios: all interleavings (visited-state pruning); 3-thread: all with <= 2 (quick) / <= 3 (thorough) preemptions; oracle: no deadlock, every request returns, final collections (as multisets) equal those of some sequential order of the same requests, a duplicated id is in each inbox once / resolved once per inbox / forwarded once; distinct_nontrivial = distinct (scenario, final state) pairs"
+	res.Rule = "hand-written collision scenarios plus EVERY unordered pair of 21 request kinds (each inbox / outbox activity type with a default effect, forwarding, GET entry points; a kind also paired with itself; thorough: every triple of the 13 state-changing kinds), all aimed at the same local objects; per scenario: 2-3 real request goroutines on one Actor under a cooperative scheduler; every Database/Transport/callback call is a scheduling point, application locks are blocking resources; 2-thread scenarios: all interleavings (visited-state pruning); 3-thread: all with <= 2 (quick) / <= 3 (thorough) preemptions; oracle: no deadlock, every request returns, final collections (as multisets) equal those of some sequential order of the same requests, a duplicated id is in each inbox once / resolved once per inbox / forwarded once; distinct_nontrivial = distinct (scenario, final state) pairs"
 	res.Assumptions = []string{"application Lock/Unlock give mutual exclusion per id", "interleaving granularity = seam calls; unsynchronised accesses between them are looked for by the supplementary free-running -race pass only",
 		"library code is deterministic given the results it observes (enforced: replay divergence is a hard error)"}
 	return res.Finish()
@@ -534,7 +544,7 @@ func C08Worker(args []string) int {
 	var bound, secs int
 	fmt.Sscan(args[1], &bound)
 	fmt.Sscan(args[2], &secs)
-	for _, cs := range ConcCorpus(true) {
+	for _, cs := range append(append(ConcCorpus(true), PairCorpus()...), TripleCorpus()...) {
 		if cs.Name == args[0] {
 			o := exploreConc(cs, bound, time.Now().Add(time.Duration(secs)*time.Second))
 			json.NewEncoder(os.Stdout).Encode(o)
